@@ -31,6 +31,10 @@ Definition sapi_step (l : list Z) : list Z :=
         if aw =? 0 then [0; 0; 0] ++ hs
         else match hs with [] => [0; 0; 0; 0] | _ => [0; 0; 0] ++ [last hs 0] ++ removelast hs ++ [0] end
       else [1]
+  | [4; nq] =>
+      (* a running coroutine queues nq waiters (discarded suspend point), then calls coro_queue::resume(h) (coro_queue.h:130-138:
+         coroutine mode => push_back), logs 0 and finishes; then the flush: the waiters in chain order, then h (logs 50) *)
+      if in_range nq 0 8 then [0; 0; 0; 0] ++ desc (Z.to_nat nq) 1 ++ [50] else [1]
   | _ => [1]
   end.
 Definition sapi_run (ops : list (list Z)) : list (list Z) := map sapi_step ops.
@@ -46,6 +50,9 @@ Definition sapi_ok (op o : list Z) : bool :=
       let hs := desc (Z.to_nat n1) 1 ++ desc (Z.to_nat n2) 101 in
       (act =? 0) && (ql =? 0) &&
       (if aw =? 0 then perm_b order hs else perm_b order (0 :: hs) && (last order 1 =? 0))
+  | [4; nq], 0 :: act :: ql :: order =>
+      (* nothing resumed before the caller went on (its marker 0 comes first), everything resumed once, FIFO: h last *)
+      (act =? 0) && (ql =? 0) && perm_b order (0 :: 50 :: desc (Z.to_nat nq) 1) && (hd 1 order =? 0) && (last order 1 =? 50)
   | _, [1] => true
   | _, _ => false
   end.
